@@ -195,7 +195,8 @@ class Checker:
             self.log_msg("Could not locate torrent content %s.", path)
             raise FileNotFoundError(path)
 
-        root = Path(path)
+        # "." and "dir/." have no usable last component until made absolute
+        root = Path(os.path.abspath(path))
         if root.name == self.name:
             self.log_msg("Content found: %s.", str(root))
             return root
